@@ -26,4 +26,16 @@ CHECKS["C02"] = {
     "note": "Trusted: R2 parser (cross-checked against the ABNF engine R1) and R3 evaluator; match/search atoms use literal patterns only.",
     "technique": T_EXH,
 }
+CHECKS["C03"] = {
+    "text": "Every string the reference recogniser classifies valid among 1.4 M token strings (`$`.T^<=4 over 33 tokens; T^<=5 = 40 M in thorough), all ~200 000 single-edit neighbours of a 190-query corpus and every corpus query with each of 4 blank characters inserted at every position must compile. Lexical rules are covered exhaustively: every Unicode scalar value (BMP + plane boundaries in quick, all 1 112 064 in thorough) as name-first, as name-char, raw inside both quote styles and as \\uXXXX escape; the product of number spellings int x frac x exp; boundary integers in index and slice slots.",
+    "ref": "DESIGN.md section 5, C03",
+    "note": "Trusted: R2 recogniser + typing, with R1 (generic ABNF engine over the transcribed RFC grammar) re-checking every string that is reported. Grey-zone strings are not required either way.",
+    "technique": T_EXH,
+}
+CHECKS["C04"] = {
+    "text": "Every string the reference recogniser classifies as outside the grammar among `$`.T^<=4 (33-token alphabet; T^<=5 in thorough), T^<=2 without `$`, and all single-character deletions/insertions/replacements/transpositions of a 190-query valid corpus (40-character edit alphabet) must make compile() raise a JSONPathError. 1.39 M out-of-grammar strings per quick run, enumerated not sampled.",
+    "ref": "DESIGN.md section 5, C04",
+    "note": "Trusted: R2 recogniser; any string reported is first re-checked with R1, the generic ABNF engine (disagreement = machinery error, exit 2).",
+    "technique": T_EXH,
+}
 PENDING = {}
